@@ -26,7 +26,7 @@ ASSUMPTIONS = [
 ]
 
 ROOT = os.path.dirname(os.path.dirname(os.path.dirname(os.path.abspath(__file__))))
-ALPHABET = ["finA", "finB", "trig_exact", "trig_rounded", "trig_lag", "cat", "cat_transformed", "ifs", "inv", "inv9", "fail", "sens"]
+ALPHABET = ["finA", "finB", "finC", "finD", "trig_exact", "trig_rounded", "trig_lag", "cat", "cat_transformed", "ifs", "inv", "inv9", "fail", "sens"]
 PERMS = ["perm%d" % i for i in range(6)]
 
 
